@@ -24,6 +24,14 @@ type Opts struct {
 	// MinElements forces at least that many elements per block (for order/offset harnesses
 	// that need distinguishable, non-empty blocks).  Default 0.
 	MinElements int
+	// ZeroPct (0 = off, does not touch the random stream of existing users): per element,
+	// first-class zero values that are PRESENT in the file and must come back as zeros, not as
+	// "absent": raw timestamp 0 (1970-01-01T00:00:00Z, also as the first value of a dense
+	// column), version/changeset/uid 0, user string index 0, raw coordinates 0.
+	ZeroPct int
+	// UnknownMemberPct (0 = off): per relation member, a type value outside the enum 0..2
+	// (3, 7, -1, MaxInt32, MinInt32): a member without a known type.
+	UnknownMemberPct int
 	// Kinds restricts what is generated: any of 'd' (dense), 'w' (ways), 'r' (relations);
 	// "" = all.
 	Kinds string
@@ -142,6 +150,18 @@ func (g *gen) info(b *Block) Info {
 			in.Timestamp = MaxTimestampMs / b.DateGran()
 		}
 	}
+	if g.o.ZeroPct > 0 && g.pct(g.o.ZeroPct) {
+		switch g.r.Intn(4) {
+		case 0:
+			in.Timestamp = 0
+		case 1:
+			in.Version, in.UID, in.Changeset, in.Timestamp, in.UserSid = 0, 0, 0, 0, 0
+		case 2:
+			in.Version, in.Changeset = 0, 0
+		case 3:
+			in.UID, in.UserSid = 0, 0
+		}
+	}
 	return in
 }
 
@@ -149,6 +169,9 @@ func (g *gen) info(b *Block) Info {
 // extreme but still valid) coordinate.
 func (g *gen) coord(b *Block, off int64, span int64) int64 {
 	target := g.r.Int63n(2*span+1) - span
+	if g.o.ZeroPct > 0 && g.pct(g.o.ZeroPct) {
+		return 0
+	}
 	if g.pct(g.o.ExtremePct) {
 		switch g.r.Intn(3) {
 		case 0:
@@ -183,6 +206,9 @@ func (g *gen) dense(b *Block, n int) *Dense {
 		nd.Lon = g.coord(b, b.LonOff(), 180000000000)
 		if d.HasKeysVals && g.pct(60) {
 			nd.Tags = g.tags(b, true)
+		}
+		if i == 0 && g.o.ZeroPct > 0 && g.pct(3*g.o.ZeroPct) {
+			nd.Info.Timestamp = 0 // a timestamp column that starts with the epoch
 		}
 		d.Nodes = append(d.Nodes, nd)
 		if g.pct(g.o.ExtremePct) {
@@ -237,6 +263,9 @@ func (g *gen) relation(b *Block) *Relation {
 	}
 	for i := 0; i < nm; i++ {
 		r.Members = append(r.Members, Member{Type: int32(g.r.Intn(3)), Ref: g.id(), RoleSid: int32(g.sid(b, false))})
+		if g.o.UnknownMemberPct > 0 && g.pct(g.o.UnknownMemberPct) {
+			r.Members[i].Type = []int32{3, 7, -1, math.MaxInt32, math.MinInt32}[g.r.Intn(5)]
+		}
 	}
 	return r
 }
